@@ -218,7 +218,7 @@ Duplicate(o, kind) ==
 DoAssign        == \E o \in objs, s \in Names, r \in RawOk : Assign(o, s, r)
 DoAssignBad     == \E o \in objs, s \in Names : AssignBad(o, s)
 DoAssignUnknown == \E o \in objs, nm \in FileNames : AssignUnknown(o, nm)
-DoGetSet        == \E o \in objs, s \in Names, r \in Raw : GetSet(o, s, r)
+DoGetSet        == \E o \in objs, s \in Names, r \in {"a", "x"} : GetSet(o, s, r)
 DoRevert        == \E o \in objs : Revert(o)
 DoWrite         == \E o \in objs, st \in Styles : Write(o, st)
 DoSetBad        == \E i \in 1..Len(file.es) : SetBad(i)
